@@ -268,7 +268,31 @@ def rule_ovf(env, shared):
                        "the position counter of %s is advanced by an unbounded amount (%s): a chunk size near usize::MAX "
                        "wraps the counter and already delivered positions are handed out again" % (env.sname(adt), t)))
             else:
-                put(Ob("OVF", key, "ok", e.loc(), "reservation amount is bounded: %s" % fmt(unref(amt))[:80], True))
+                am = m.canon(unref(amt))
+                Lt = env.R.impl[adt].get("len_term")
+                bounded = am[0] == "int"
+                if not bounded and kind == "known" and Lt is not None:
+                    # the amount must be clamped to (something <=) LEN of this very iterator
+                    obj = None
+                    t0 = unref(e.info["place"])
+                    while t0[0] == "field":
+                        if len(t0) > 4 and t0[4] == adt and t0[2] == env.R.impl[adt].get("pos"):
+                            obj = t0[1]
+                            break
+                        t0 = t0[1]
+                    Lc = m.canon(r_m1.subst_self(Lt, obj)) if obj is not None else None
+                    if Lc is not None:
+                        Lc = rewrite(Lc, lambda x: x[1][1] if x[0] == "deref" and x[1][0] == "ref" else None)
+                        bounded = oprover(m, env, e).le(am, Lc)
+                elif kind == "ticket":
+                    bounded = True
+                if bounded:
+                    put(Ob("OVF", key, "ok", e.loc(), "reservation amount is bounded by LEN: %s" % fmt(am)[:80], True))
+                else:
+                    put(Ob("OVF", key, "viol", e.loc(),
+                           "the position counter of %s is advanced by %s, which is not bounded by the length of the source: "
+                           "large chunk sizes wrap the counter and delivered positions are handed out again" % (
+                               env.sname(adt), fmt(am)[:100])))
 
     for u in m.units:
         for e in u.events:
